@@ -119,9 +119,9 @@ Definition footprint_of (f : fn) : footprint :=
   | M_sort => [Seq ex]
   (* ValueMap::with_capacity(m.len());  m.data_mut().sort_by(|..| vm.call_function(f, ..)) *)
   | M_sort_by => [Seq (sh ++ ex_user)]
-  (* do_map_update: if !map.data().contains_key(&key) { map.data_mut().insert(key, default) }
-     let value = map.get(&key).unwrap();  f(value) (no guard);  map.data_mut().insert(key, new) *)
-  | M_update => [Seq (sh ++ ex ++ sh ++ [User] ++ ex)]
+  (* do_map_update (after fix 3c98e6d): match map.get(&key) { Some(v) => v, None => { map.data_mut()
+     .insert(key, default); default } };  f(value) (no guard);  map.data_mut().insert(key, new) *)
+  | M_update => [Seq (sh ++ ex ++ [User] ++ ex)]
   | M_size => [Seq sh]
   | M_access => [Seq sh]
   | M_access_assign => [Seq ex]
@@ -163,7 +163,7 @@ Definition mem (f : fn) (fs : list fn) : bool := existsb (fn_eqb f) fs.
 
 (* more than one critical section: another thread's section can run in between.
    check-then-act (can PANIC inside Vec when the container shrank in between):
-       L_insert L_remove L_index L_index_range L_retain_fn M_update(unwrap)
+       L_insert L_remove L_index L_index_range L_retain_fn
    read-then-write (lost update / mixed snapshot):
        L_sort_by L_retain_fn L_resize_with M_update M_sort_by
    several reads that need not be one snapshot:
@@ -240,7 +240,7 @@ Definition pinned_borrows : list pin :=
     (M_remove, [(Ex, false)]);
     (M_sort, [(Ex, false)]);
     (M_sort_by, [(Sh, false); (Ex, false)]);
-    (M_update, [(Sh, false); (Ex, false); (Sh, false); (Ex, false)]) ].
+    (M_update, [(Sh, false); (Ex, false); (Ex, false)]) ].
 
 (* what the footprint row says about the same arm: acquisitions in order, flagged when they sit
    in a Loop segment *)
